@@ -187,7 +187,9 @@ func evalPath(node *jparse.PathNode, data reflect.Value, env *environment) (refl
 		_, isVar = step0.Expr.(*jparse.VariableNode)
 	}
 
-	output := data
+	// Resolve: an array held in an interface (e.g. an array
+	// member) has no length until it is unwrapped.
+	output := jtypes.Resolve(data)
 	if isVar || !jtypes.IsArray(data) {
 		output = reflect.MakeSlice(typeInterfaceSlice, 1, 1)
 		if data.IsValid() {
@@ -669,6 +671,7 @@ func applyFilter(filter jparse.Node, items reflect.Value, env *environment) (ref
 		if jtypes.IsNumber(res) {
 			res = arrayify(res)
 		}
+		res = jtypes.Resolve(res)
 
 		switch {
 		case jtypes.IsArrayOf(res, jtypes.IsNumber):
